@@ -140,13 +140,6 @@ Proof.
     apply isub_ok; [apply ione_ok | apply imul_ok; apply iofQ_ok].
 Qed.
 
-Lemma Qleb_ok x y : Qleb x y = true -> Q2R x <= Q2R y.
-Proof.
-  unfold Qleb. destruct (x ?= y)%Q eqn:E; try discriminate; intros _.
-  - apply Qeq_alt in E. apply Qeq_eqR in E. lra.
-  - apply Qlt_alt in E. apply Qlt_Rlt in E. lra.
-Qed.
-
 Theorem check_resp_val_sound wz mx a phi0 rest re im tol :
   check_resp_val wz mx a (phi0 :: rest) re im tol = true ->
   -1 <= Q2R a <= 1 /\
